@@ -5,7 +5,7 @@ CONSTANTS
   GENVALS = {"o1", "o2", "o3"}
   UNB = 1
   UNBH = 10
-  DEVIATIONS = {"L13hold", "L13rev", "NOHOOK", "VALKEYS"}
+  DEVIATIONS = {"L13hold", "L13rev", "VALKEYS"}
   ACTORS = {"o2", "o3", "o4"}
   UNDELFROM = {"o1", "o3", "o4"}
   PATHS = {"pre", "msg"}
